@@ -57,6 +57,13 @@ def gen_cases(rng, tier, scale):
                 cases.append(rcase(f'ex{kk}s{st}', 'a' + pos + 'z', d, pre=['probes', f'strict {st}'], entry=0,
                                    partials={'p': '[{{k}}]', 'p2': '[{{k}}{{j}}]', 'q': '({{k}})'}, kind='exist', pair=('ex', kk), strict=st, tags=['existing-falsy']))
             kk += 1
+    # strict mode with the helperMissing / blockHelperMissing hooks registered: a missing name-only expression is still
+    # MissingVariable naming the path (the hook is for calls)
+    for k3, (tpl, d, path) in enumerate([('a{{zz}}b', {}, 'zz'), ('{{{zz}}}', {}, 'zz'), ('{{#with o}}{{k}}{{zz}}{{/with}}', {'o': {'k': 1}}, 'zz'),
+                                         ('{{#each l}}{{../zz}}{{/each}}', {'l': [1]}, '../zz'), ('{{> p o}}', {'o': {'k': 2}}, 'z')]):
+        for hk in (1, 2, 3):
+            cases.append(rcase(f'hk{k3}_{hk}', tpl, d, pre=['probes', f'hooks {hk}', 'strict 1'], partials={'p': '[{{k}}{{z}}]'}, entry=0,
+                               kind='hookstrict', path=path, tags=['strict-with-hooks']))
     return cases
 
 FIXED = {0: ('err', 'MissingVariable', '-'), 1: ('err', 'MissingVariable', '-'), 2: ('ok', ''),
@@ -70,6 +77,9 @@ def oracle(c, io, mo):
         if e[0] == 'ok':
             return None if r.get('out') == e[1] else f'expected output {e[1]!r}, got {r}'
         return None if (r['kind'] == 'err' and r['reason'] == e[1] and r['payload'] == e[2]) else f'expected {e}, got {r}'
+    if c['kind'] == 'hookstrict':
+        ok = r['kind'] == 'err' and r['reason'] == 'MissingVariable' and r['payload'] == x(c['path'])
+        return None if ok else f'strict mode with hooks registered: expected MissingVariable({c["path"]}), got {r.get("out", r.get("reason"))!r} {r.get("payload", "")}'
     if c['kind'] == 'ref':
         try:
             exp = ('ok', Ref(c['data'], strict=True).render(c['ast']))
